@@ -137,7 +137,7 @@ def run(tier, seed):
     scns = scenarios()
     chk.machine_family("builtins-enumerated", scns, features=features)
     n = 800 if tier == "quick" else 10000
-    rs = [gen.random_scenario(rnd, {"meta", "ctl", "dyn"}, nclauses=3, depth=rnd.choice([2, 3])) for _ in range(n)]
+    rs = [gen.random_scenario(rnd, {"meta", "ctl", "dyn", "rich"}, nclauses=3, depth=rnd.choice([2, 3])) for _ in range(n)]
     for i in range(0, n, 4000):
         chk.machine_family("random-meta-%d" % (i // 4000), rs[i:i + 4000], features=features)
     need = ["DoCallN", "DoOnce", "DoFindallStart", "DoFindallCollect", "DoFindallEnd", "DoFindallEndFail", "DoEq", "DoNeq", "DoCommit"]
